@@ -69,7 +69,8 @@ def db_stubs():
         tr.emit(f"{tr.lv(Loc(n.discr, d.idxs))} = {n.vindex('Ok')}; db_code_reads++;")
         tr.emit(f"{tr.lv(Loc(n.variants[n.vindex('Ok')][1].fields[0].fields[0], d.idxs))} = (unsigned char)(100 + ({h}));")
     return {"<DB as DatabaseRef>::basic_ref": basic_ref, "<DB as DatabaseRef>::storage_ref": storage_ref,
-            "<DB as DatabaseRef>::code_by_hash_ref": code_ref, "Beneficiary::matches": stub_matches}
+            "<DB as DatabaseRef>::code_by_hash_ref": code_ref, "Beneficiary::matches": stub_matches,
+            "Beneficiary::resolve_before": lambda tr, c: None}    # unreachable: the beneficiary is outside these kernels' address domain
 
 
 def declare_db(H):
